@@ -1844,3 +1844,54 @@ def m_path_write(c):
     path = c.recv[2][0] if is_call(c.recv, ("ext:pathlib.Path", "ext:pathlib.PurePath")) and c.recv[2] else c.recv
     s1.ev("fs-mutation", c.site, c.callee, (path,) + tuple(c.args))
     c.ret(None, pure=False, state=s1)
+
+
+@ext("inspect.signature")
+def x_inspect_signature(c):
+    """inspect.signature(f) of a repository function: a value whose bind() the analysis unfolds"""
+    f = c.args[0] if c.args else None
+    if f is None or not (isinstance(f, tuple) and ((f[0] == "rawfunc" and len(f) == 2) or (f[0] == "global" and f[1].startswith("func:")))):
+        c.rz("TypeError", "signature() of a value that may not be callable", pure=False)
+        c.rz("ValueError", "signature() of a callable without a signature", pure=False)
+    c.ret()
+
+
+def signature_function(w, sig):
+    """FuncInfo of the repository function a `inspect.signature(f)` term describes"""
+    if not (is_call(sig, "ext:inspect.signature") and len(sig[2]) == 1):
+        return None
+    f = sig[2][0]
+    if isinstance(f, tuple) and f[0] == "rawfunc" and len(f) == 2:
+        return w.prog.funcs.get(f[1])
+    if isinstance(f, tuple) and f[0] == "global" and f[1].startswith("func:"):
+        return w.prog.funcs.get(f[1][5:])
+    return None
+
+
+@method("bind", "bind_partial")
+def m_signature_bind(c):
+    """Signature.bind(*args, **kwargs): a BoundArguments whose .arguments maps the names of the
+    parameters that received an explicit argument to those arguments"""
+    from .calls import bind_params
+
+    fi = signature_function(c.w, c.recv)
+    if fi is None:
+        # a signature the analysis cannot see (a closure variable of a wrapper analysed on its
+        # own): a dynamic call
+        val = ("attr", c.recv, c.callee[7:])
+        t = CallT("dynamic", [val] + list(c.args), c.kwargs)
+        s1 = c.s.copy()
+        s1.ev("call", c.site, "dynamic", (val,) + tuple(c.args), tuple(c.kwargs), ("raise", "Exception"))
+        c.outs.append((s1, "raise", Exc("Exception", [c.site], [("notok", t)], "dynamic", "call through an unresolved value")))
+        s2 = c.s.copy()
+        s2.ev("call", c.site, "dynamic", (val,) + tuple(c.args), tuple(c.kwargs), ("ok", t))
+        c.outs.append((s2, "val", t))
+        return
+    mp, names = bind_params(c.w, c.e, fi, tuple(c.args), tuple(c.kwargs), False)
+    if mp is None:
+        c.rz("TypeError", "Signature.bind(): %s" % names)
+        return
+    explicit = set(fi.params()[: len(c.args)]) | {n for n, _v in c.kwargs}
+    pairs = tuple((C(n), mp[n]) for n in names if n in explicit or (n.startswith("*") and mp[n][2]))
+    pairs = tuple((C(k[2].lstrip("*")), v) for k, v in pairs)
+    c.ret(("nt", "inspect.BoundArguments", (("lit", "dict", pairs, None),)))
